@@ -16,6 +16,8 @@ type SpecCtx struct {
 	old    map[string]string // heap for old(); nil = current
 	entry  map[string]string // heap at the first arrival at the loop head (loop invariants)
 	entryCells map[int]Val
+	otherHeap bool // heap-reading spec functions take a second set of bound heaps (axioms)
+	readsOld bool // heap-reading spec functions take the old heaps (inold(...))
 	pkg    *types.Package
 	what   string // for error messages
 	trig   bool   // evaluating a trigger term: no boolean structure allowed
@@ -749,6 +751,22 @@ func (c *SpecCtx) call(x *SCall) Val {
 	case "iscase":
 		// iscase("K"): this verification is the foreach case K (folds to a literal)
 		return bval(fmt.Sprint(e.curCase == x.Args[0].(*SLit).Val))
+	case "otherheap":
+		// otherheap(g(x...)) in an axiom: g reading a second, independently quantified set of heaps
+		saved := c.otherHeap
+		c.otherHeap = true
+		defer func() { c.otherHeap = saved }()
+		return c.eval(x.Args[0])
+	case "inold":
+		// inold(g(x...)): the heap-reading spec function g applied to the CURRENT values of its arguments, reading the heaps of
+		// the old state (e.g. "what this message, as it is now, encodes to in the memory the caller passed in")
+		if c.old == nil {
+			return arg(0)
+		}
+		saved := c.readsOld
+		c.readsOld = true
+		defer func() { c.readsOld = saved }()
+		return c.eval(x.Args[0])
 	case "dynknown":
 		// dynknown(v): the dynamic type of the interface value is known structurally on this path
 		return bval(fmt.Sprint(arg(0).Dyn != nil))
@@ -959,7 +977,16 @@ func (c *SpecCtx) call(x *SCall) Val {
 		if len(sf.Reads) > 0 {
 			var hs []string
 			for i, id := range sf.Reads {
-				hs = append(hs, s.heapTerm(id, sf.RSorts[i]))
+				if c.otherHeap {
+					if s.bind == nil {
+						c.fail("otherheap() is for axioms only")
+					}
+					hs = append(hs, s.heapTerm(id+"$2", sf.RSorts[i])) // a second, independently quantified heap
+				} else if c.readsOld {
+					hs = append(hs, c.oldHeapTerm(id, sf.RSorts[i]))
+				} else {
+					hs = append(hs, s.heapTerm(id, sf.RSorts[i]))
+				}
 			}
 			as = append(hs, as...)
 		}
